@@ -24,7 +24,7 @@ fn focus_finish_drop_print(o: &Op) -> bool {
 /// growing and shrinking a bottom-aligned region: add, tick the newest and the first bar, remove,
 /// finish and drop the first bar
 fn focus_bottom_growth(o: &Op) -> bool {
-    matches!(o, Op::Add | Op::Tick(0) | Op::Tick(3) | Op::Tick(4) | Op::Remove(1) | Op::Remove(2) | Op::Finish(0) | Op::DropBar(0) | Op::MpPrintln)
+    matches!(o, Op::Add | Op::Tick(0) | Op::Tick(3) | Op::Tick(4) | Op::Remove(1) | Op::Remove(2) | Op::Finish(0) | Op::DropBar(0) | Op::MpPrintln | Op::MpSuspend | Op::MpClear)
 }
 
 fn focus_cfgs(tier: Tier) -> Vec<(Cfg, usize)> {
@@ -129,6 +129,21 @@ pub fn c03_configs(tier: Tier) -> Vec<(Cfg, usize)> {
     c.inserts = false;
     c.vt = true;
     v.push((c, if tier == Tier::Quick { d + 1 } else { d }));
+    // a terminal too short for the first bar: printed lines while no bar line fits
+    for (w, h) in [(5usize, 2usize), (4, 1)] {
+        let mut c = Cfg::base("c03-short-terminal", w, h);
+        c.height_clauses = true;
+        c.max_bars = 2;
+        c.inserts = false;
+        c.suspend = false;
+        c.bar_println = false;
+        c.remove = false;
+        c.clear_only = true;
+        c.odd_logs = true;
+        c.root = pre_logs(1, vec![]);
+        c.msgs = vec!["q".into(), "q".repeat(3 * w)];
+        v.push((c, d + 1));
+    }
     // bar lines that wrap at a double-width character
     let mut c = Cfg::base("c03-wide-wrap", 7, 40);
     c.root = pre_logs(2, two_drawn());
